@@ -1,6 +1,9 @@
 package crl
 
 import (
+	"crypto/x509"
+	"math/big"
+
 	"github.com/gr33nbl00d/caddy-revocation-validator/config"
 	"github.com/gr33nbl00d/caddy-revocation-validator/core"
 	"github.com/gr33nbl00d/caddy-revocation-validator/crl/crlrepository"
@@ -10,27 +13,37 @@ import (
 var stateNames = []string{"loaded", "loaded+sigfailed", "pending", "empty"}
 var opNames = []string{"handshake-cdp", "handshake-nocdp", "tick", "background-load", "config-update", "cleanup"}
 
-// VerifC13_Ops: from every pre-state {loaded, loaded + last refresh failed signature verification,
-// added-but-not-loaded, empty} x fetch mode, run ONE API operation with an arbitrary server state.
-//   per operation (engine obligations): no lock is re-acquired while held, every lock is released
-//   on every exit, no panic;
-//   per pair of operations from the same pre-state (schedule query): no two accesses to the same
-//   field of the code under test, one of them a write, can coincide.
-func VerifC13_Ops() {
-	fetch := config.CRLFetchMode(verifrt.Choose(2))
-	c := newChecker(verifrt.Param("disk", 0) == 1, fetch, verifrt.Choose(2) == 1, config.SignatureValidationModeVerify)
+type c13World struct {
+	c      *CRLRevocationChecker
+	fetch  config.CRLFetchMode
+	state  int
+	probe  *big.Int
+	cert   *x509.Certificate
+	loc    *core.CRLLocations
+	chains *core.CertificateChains
+}
+
+// c13Setup: pre-state {loaded, loaded + last refresh failed signature verification, added-but-not-
+// loaded, empty} x fetch mode x strict, then an arbitrary server state for the operations to come.
+func c13Setup() *c13World {
+	w := &c13World{}
+	w.fetch = config.CRLFetchMode(verifrt.Choose(2))
+	w.c = newChecker(verifrt.Param("disk", 0) == 1, w.fetch, verifrt.Choose(2) == 1, config.SignatureValidationModeVerify)
+	c := w.c
 	s1, probe := sym("s1"), sym("probe")
+	w.probe = probe
 	good := crlrepository.VerifNewCRL("GOOD", "CN=I1", s1)
 	crlrepository.VerifSetServer(urlA, true, good)
 	cert := crlrepository.VerifCert("CN=I1", probe, urlA)
-	loc := &core.CRLLocations{CRLDistributionPoints: []string{urlA}}
-	chains := core.NewCertificateChains(chainFor(cert), nil)
-	state := verifrt.Choose(4)
-	switch state {
+	w.cert = cert
+	w.loc = &core.CRLLocations{CRLDistributionPoints: []string{urlA}}
+	w.chains = core.NewCertificateChains(chainFor(cert), nil)
+	w.state = verifrt.Choose(4)
+	switch w.state {
 	case 0, 1:
 		_, _ = c.IsRevoked(cert, chainFor(cert))
 		verifrt.RunSpawned()
-		if state == 1 {
+		if w.state == 1 {
 			// the refreshed list was signed with a new CA key: the stored signer does not verify it,
 			// a chain presented by a later handshake does (key rollover)
 			rolled := crlrepository.VerifNewCRL("ROLLED", "CN=I1", s1)
@@ -39,7 +52,7 @@ func VerifC13_Ops() {
 			c.crlRepository.UpdateCRLs()
 		}
 	case 2:
-		if fetch != config.CRLFetchModeBackground {
+		if w.fetch != config.CRLFetchModeBackground {
 			// in active mode "added but not loaded" = the first download failed
 			crlrepository.VerifSetServer(urlA, false, nil)
 		}
@@ -58,29 +71,70 @@ func VerifC13_Ops() {
 	case 2:
 		crlrepository.VerifSetServer(urlA, true, crlrepository.VerifNewCRL("NEXT", "CN=I1", s1))
 	}
-	op := verifrt.Choose(len(opNames))
-	fm := "active"
-	if fetch == config.CRLFetchModeBackground {
-		fm = "background"
-	}
-	verifrt.TraceBegin(stateNames[state] + "+" + fm + "/" + opNames[op])
+	return w
+}
+
+func (w *c13World) run(op int) {
+	c := w.c
 	switch op {
 	case 0:
-		_, _ = c.IsRevoked(cert, chainFor(cert))
+		_, _ = c.IsRevoked(w.cert, chainFor(w.cert))
 	case 1:
-		c2 := crlrepository.VerifCert("CN=I1", probe)
+		c2 := crlrepository.VerifCert("CN=I1", w.probe)
 		_, _ = c.IsRevoked(c2, chainFor(c2))
 	case 2:
 		c.updateCRLs(false)
 	case 3:
 		c.updateCRLs(true)
 	case 4:
-		_ = c.crlRepository.UpdateCRL(loc, chains)
+		_ = c.crlRepository.UpdateCRL(w.loc, w.chains)
 	case 5:
 		_ = c.Cleanup()
 	}
+}
+
+// VerifC13_Ops: from every pre-state {loaded, loaded + last refresh failed signature verification,
+// added-but-not-loaded, empty} x fetch mode, run ONE API operation with an arbitrary server state.
+//   per operation (engine obligations): no lock is re-acquired while held, every lock is released
+//   on every exit, no panic;
+//   per pair of operations from the same pre-state (schedule query): no two accesses to the same
+//   field of the code under test, one of them a write, can coincide.
+func VerifC13_Ops() {
+	w := c13Setup()
+	op := verifrt.Choose(len(opNames))
+	fm := "active"
+	if w.fetch == config.CRLFetchModeBackground {
+		fm = "background"
+	}
+	verifrt.TraceBegin(stateNames[w.state] + "+" + fm + "/" + opNames[op])
+	w.run(op)
 	verifrt.TraceEnd()
 	verifrt.Assert(verifrt.LocksHeld() == 0, "every lock released when the operation returns")
 	verifrt.DropSpawned()
 	verifrt.Reach(opNames[op])
+}
+
+// VerifC13_Interleave: two API operations A and B from the same pre-state, B running to completion at
+// a context switch placed before A's k-th lock acquisition (k = 0..maxlocks-1; every lock boundary of A
+// is a switch point, schedules in which B would have to wait for a lock A holds are dropped), then A
+// continues; finally the goroutines either of them started run. Whatever A observed before the
+// switch may be stale afterwards: no panic, no deadlock, no lock left held, on every such schedule.
+func VerifC13_Interleave() {
+	w := c13Setup()
+	a := verifrt.Choose(len(opNames))
+	b := verifrt.Choose(len(opNames))
+	if a == 5 && b == 5 {
+		return // Cleanup is called once per validator instance (caddy module contract)
+	}
+	k := verifrt.Choose(verifrt.Param("maxlocks", 6))
+	verifrt.PreemptAtLock(k, func() { w.run(b) })
+	w.run(a)
+	if !verifrt.PreemptRan() {
+		// A takes fewer than k+1 locks: nothing new to see on this path
+		return
+	}
+	verifrt.Assert(verifrt.LocksHeld() == 0, "every lock released when both operations have returned")
+	verifrt.RunSpawned()
+	verifrt.Assert(verifrt.LocksHeld() == 0, "every lock released after the background work")
+	verifrt.Reach("interleaved")
 }
